@@ -23,6 +23,10 @@ BUDGET = {
     "C17": (1_200_000, 40_000_000),
 }
 
+# properties whose native run is repeated on the `plain` build flavour, with
+# this fraction of the budget
+PLAIN_TOO = {"C05": 0.5, "C14": 0.5}
+
 RULE = {
     "C05": "Episodes (1-2 simulated caller threads, 3-60 operations over the whole public API incl. low-level searchers, "
            "raw-pointer forms and safe calls with a mismatched needle) are generated from VERIF_SEED; the simulator places "
@@ -196,6 +200,39 @@ def run_property(prop, tier, seed):
         rc = finish_violation(prop, tier, seed, exe, res, t0, cov)
         if rc is not None:
             return rc
+    # build configuration (S4): the shipped configuration has no debug
+    # assertions and no overflow checks; what is a harmless debug_assert panic
+    # in the dbg flavour may be an over-read or a missing documented panic there
+    if prop in PLAIN_TOO:
+        exe2 = D.build("plain")
+        total2 = max(64, int(total * PLAIN_TOO[prop]))
+        res2 = D.run_workers(exe2, prop, seed, total2, chunk, timeout_per_chunk=(90 if tier == "quick" else 900),
+                             extra_args=extra)
+        D.cleanup_outs(res2)
+        cov["plain_flavour"] = {
+            "what": "same profile on the build without debug assertions / overflow checks (the shipped configuration)",
+            "families": res2.families, "executions": res2.executions,
+            "operations": int(res2.stats.get("ops", 0)) + int(res2.stats.get("inner_evals", 0)),
+            "documented_panics_seen": res2.stats.get("lib_panics_documented", 0),
+            "wall_s": round(res2.wall, 2),
+        }
+        cov["evaluations"] += cov["plain_flavour"]["operations"]
+        if res2.violation is not None:
+            mn, text = D.handle_violation(exe2, prop, seed, res2.violation)
+            with open(mn) as f:
+                famj = json.load(f)
+            famj["substrate"] = {"flavours": ["plain"]}
+            with open(mn, "w") as f:
+                json.dump(famj, f)
+            known = D.known_match(prop, text)
+            if known:
+                D.log("KNOWN-FINDING: property=%s %s" % (prop, known.get("what", text)))
+            else:
+                D.log("violation: [plain flavour] " + text)
+                cov["violation"] = "[plain flavour] " + text
+                D.write_evidence(prop, tier, seed, cov, time.time() - t0, 1, ASSUME)
+                print("VIOLATION property=%s replay=%s" % (prop, mn), flush=True)
+                return 1
     # required reach (a probe stuck at zero means the workload must change)
     problems = reach_problems(prop, res)
     if problems:
